@@ -403,6 +403,13 @@ def rule_slots(ctx, R):
                     body_ = lab[3:lab.rindex("]")]
                     tests.add("K0" if body_.startswith("K0,") or body_.endswith(",K0") else body_[-12:])
     R.check(bool(ins) and all(v == "K0" for v in ins) and tests == {"K0"}, "optimize:slots:sentinel", "a stack without a slot is marked by the entry value 0 (entries are created with 0 and compared with 0): created with %s, compared with %s" % (ins, sorted(tests)), b.span)
+    # the rewrite leaves a command alone when it is a push (kind 0: its dots are a factor, not a stack) or addresses
+    # stack 0..3; it remaps exactly when neither holds
+    from .util import dominating_edge_labels
+    ors = sorted(bi for bi, t in b.calls() if callee_name(t["f"], fb).endswith("Entry::or_insert"))
+    if R.anchor(len(ors) == 2, "remap_entries", "the two map lookups (allocation pass, rewrite pass)"):
+        labs = sorted(l for l in dominating_edge_labels(cfg, b, evs, ors[1]) if l.startswith("EQ[K0,KIND]") or l.startswith("LT[DOT,"))
+        R.check(labs == ["EQ[K0,KIND]=0", "LT[DOT,K4]=0"], "optimize:slots:remap_iff", "a command's stack number is remapped exactly when the command is not a push and addresses a stack above 3: %s" % labs, b.blocks[ors[1]]["term"]["span"]["at"])
     # a private slot is the value of the counter *before* it is advanced (the advanced value is the shared slot)
     stores = []
     for bi, blk in enumerate(b.blocks):
